@@ -496,7 +496,37 @@ impl G {
         attrs
     }
 
+    /// inert attributes of other tools around the deserr ones (the derive has to skip them, wherever they are)
+    fn foreign_attr(&mut self, indent: &str) -> String {
+        let a = *self.rng.pick(&["#[rustfmt::skip]", "#[allow(dead_code)]", "#[doc = \"generated\"]", "#[cfg_attr(all(), allow(unused))]", "/// a doc comment"]);
+        format!("{indent}{a}\n")
+    }
+
     fn attr_lines(&mut self, attrs: &[String], indent: &str) -> String {
+        let s = self.attr_lines_inner(attrs, indent);
+        if s.is_empty() {
+            return s;
+        }
+        let mut out = String::new();
+        if self.rng.chance(1, 5) {
+            out.push_str(&self.foreign_attr(indent));
+        }
+        // between two deserr attributes
+        let lines: Vec<&str> = s.lines().collect();
+        for (i, l) in lines.iter().enumerate() {
+            if i > 0 && self.rng.chance(1, 4) {
+                out.push_str(&self.foreign_attr(indent));
+            }
+            out.push_str(l);
+            out.push('\n');
+        }
+        if self.rng.chance(1, 8) {
+            out.push_str(&self.foreign_attr(indent));
+        }
+        out
+    }
+
+    fn attr_lines_inner(&mut self, attrs: &[String], indent: &str) -> String {
         if attrs.is_empty() {
             return String::new();
         }
